@@ -219,6 +219,14 @@ func (n *node) YangPrefixToNamespace(
 	if prefix == "" {
 		return getNodeNamespaceInternal(n, modules)
 	}
+	if root := n.Root(); skipUnknown && root.Prefix() != prefix {
+		// A prefix that no import declares has no namespace, whether
+		// unknown modules are skipped or not.
+		if _, ok := getPfxName(root, prefix); !ok {
+			return "", fmt.Errorf("Unable to map prefix '%s' to namespace.",
+				prefix)
+		}
+	}
 	moduleNode, err := n.GetModuleByPrefix(prefix, modules, skipUnknown)
 	if err != nil {
 		return "", err
